@@ -86,7 +86,7 @@ func LiteralStress(r *prng.R) []byte {
 
 // LimitKinds are the implementation limits scaled by LimitProgram.
 var LimitKinds = []string{"blocks", "locals", "rightnest", "parens", "jump-and", "jump-or", "repeat", "flatchain", "notchain", "negchain",
-	"manyblocks", "manyconsts", "hugeident", "hugestring", "blocklocals", "fieldchain", "deepblocks-vars"}
+	"manyblocks", "manyconsts", "hugeident", "hugestring", "blocklocals", "fieldchain", "deepblocks-vars", "fieldtemps"}
 
 // LimitProgram builds a valid program scaled to just below, at or above an
 // implementation limit. big allows the slow ones (hundreds of KiB).
@@ -112,6 +112,22 @@ func LimitProgram(r *prng.R, kind string, big bool) []byte {
 		}
 		sb.WriteString(strings.Repeat(")", t))
 		sb.WriteString("\n")
+	case "fieldtemps":
+		// the operand stack filled by variables; the temporaries on top come from every kind of push:
+		// literals, constants, local reads, field reads, TYPE/NAME
+		n := r.Range(1016, 1026)
+		for i := 0; i < n; i++ {
+			fmt.Fprintf(&sb, "var v%d = %d\n", i, i%7)
+		}
+		sb.WriteString("def b \"n\" {\nx = 1\neval ")
+		t := r.Range(0, 7)
+		atoms := []string{"1", "7", "x", "v0", "NAME", "TYPE", "2.5", "true", "nil", "\"s\""}
+		for i := 0; i < t; i++ {
+			sb.WriteString(prng.Pick(r, atoms) + prng.Pick(r, []string{" == (", " + (", " and (", " or ("}))
+		}
+		sb.WriteString(prng.Pick(r, atoms))
+		sb.WriteString(strings.Repeat(")", t))
+		sb.WriteString("\n}\n")
 	case "blocklocals":
 		n := r.Range(1015, 1025)
 		sb.WriteString("def b {\n")
